@@ -19,6 +19,31 @@ import Sqfs.Proofs.C09PoolFine
 namespace Sqfs.C09
 open Sqfs.Pool List
 
+/-! ### fixtures for the instantiating examples that follow the theorems -/
+
+/-- no callback fails / the callback of item `0` returns −5; both with the repaired `dequeue` -/
+private abbrev cfgOk : Cfg := ⟨true, fun _ => 0⟩
+private abbrev cfgF : Cfg := ⟨true, fun d => if d = 0 then -5 else 0⟩
+/-- 2 workers, items 7 and 9 submitted, both workers have taken one: `workers = [working ⟨0,7⟩, working ⟨1,9⟩]` -/
+private abbrev schB : List Choice :=
+  [.main (.call (.submit 7)), .main (.cont false), .main (.call (.submit 9)), .main (.cont false),
+   .worker 0 false, .worker 1 false]
+/-- 1 worker, item 0 fails (status −5), then the main thread enters `submit 1` / `get_status`: it stands at the lock -/
+private abbrev schFS : List Choice :=
+  [.main (.call (.submit 0)), .main (.cont false), .worker 0 false, .worker 0 false, .worker 0 false,
+   .main (.call (.submit 1))]
+private abbrev schFG : List Choice :=
+  [.main (.call (.submit 0)), .main (.cont false), .worker 0 false, .worker 0 false, .worker 0 false,
+   .main (.call .getStatus)]
+/-- main waits unsignalled in `dequeue` while worker 1 holds the awaited ticket -/
+private abbrev schW : List Choice :=
+  [.main (.call (.submit 3)), .main (.cont false), .worker 1 false, .main (.call .dequeue), .main (.cont false)]
+/-- extended model: pointers 11 / 22 set, two items submitted (nothing taken yet) -/
+private abbrev xschP : List XChoice :=
+  [.setPtr 0 11, .base (.main (.cont false)), .setPtr 1 22, .base (.main (.cont false)),
+   .base (.main (.call (.submit 5))), .base (.main (.cont false)),
+   .base (.main (.call (.submit 6))), .base (.main (.cont false))]
+
 /-! ### the invariant -/
 
 /-- the initial state satisfies the ticket-accounting invariant -/
@@ -45,6 +70,13 @@ theorem run_reachable (cfg : Cfg) (n : Nat) (cs : List Choice) : Reachable cfg n
       exact ih s' (.step c hs hstep)
     · exact ih s hs
 
+/-- instance of `inv_step` (placed here because it uses `inv_reachable` and `run_reachable`): worker 0 finishes its
+callback in the state where both workers hold an item -/
+example : ∃ s', step cfgOk (run cfgOk (init 2) schB) (.worker 0 false) = some s' ∧ InvA s' := by
+  obtain ⟨s', h⟩ := Option.isSome_iff_exists.1
+    (show (step cfgOk (run cfgOk (init 2) schB) (.worker 0 false)).isSome = true by decide)
+  exact ⟨s', h, inv_step cfgOk (.worker 0 false) (inv_reachable (run_reachable cfgOk 2 schB)) h⟩
+
 /-- … and the strict relation (no spurious wake-ups) only reaches states the general one reaches -/
 theorem strict_reachable {cfg : Cfg} {n : Nat} {s : State} (hr : ReachableStrict cfg n s) : Reachable cfg n s := by
   induction hr with
@@ -54,6 +86,10 @@ theorem strict_reachable {cfg : Cfg} {n : Nat} {s : State} (hr : ReachableStrict
     split at hs
     · exact .step c ih hs
     · simp at hs
+
+/-- instance: one strict step (a `submit` call) from the initial state -/
+example : Reachable cfgOk 2 (run cfgOk (init 2) [.main (.call (.submit 3))]) :=
+  strict_reachable (ReachableStrict.step (.main (.call (.submit 3))) .init (by decide))
 
 /-! ### safety -/
 
@@ -98,6 +134,9 @@ theorem no_item_lost {cfg : Cfg} {n : Nat} {s : State} (hr : Reachable cfg n s) 
   have : t ∈ range s.nextTicket := by rw [h.nt]; exact mem_range.2 ht
   have := (h.perm.mem_iff).2 this
   simpa [mem_append, mem_range, or_assoc] using this
+
+/-- instance: ticket 1 in the state where both workers hold an item (it is in `tkW`) -/
+example := no_item_lost (run_reachable cfgOk 2 schB) 1 (by decide)
 
 /-- **Exactly once.** Once everything submitted has been handed back, `returned = submitted`, every ticket's
 callback has run exactly once (the started tickets are a permutation of `0 … #submitted-1`) on the data
@@ -163,6 +202,11 @@ theorem ctx_exclusive {cfg : Cfg} {n : Nat} {s : State} (hr : Reachable cfg n s)
     cases pj <;> simp_all [WPc.held, WPc.tkF, WPc.tkW]
   omega
 
+/-- instance: two workers, each inside the callback of a different item -/
+example : (run cfgOk (init 2) schB).workers = [.working ⟨0, 7⟩, .working ⟨1, 9⟩] := by decide
+example := ctx_exclusive (run_reachable cfgOk 2 schB) 0 1 (.working ⟨0, 7⟩) (.working ⟨1, 9⟩) (by decide) (by decide)
+  (by decide)
+
 /-- every callback invocation was made by the worker that had taken that item from the queue, on that worker's
 own context: a `started` entry `(w, it)` is only ever appended by worker `w`'s own step from `working it` -/
 theorem ctx_owner {cfg : Cfg} {s s' : State} (c : Choice) (hs : step cfg s c = some s') :
@@ -227,6 +271,20 @@ theorem ctx_owner {cfg : Cfg} {s s' : State} (c : Choice) (hs : step cfg s c = s
 
 /-! ### liveness: no lost wake-up, no dead-lock -/
 
+/-- instance of `ctx_owner`: worker 0's callback step appends `(0, ⟨0, 7⟩)` to `started` -/
+example : ∃ s', step cfgOk (run cfgOk (init 2) schB) (.worker 0 false) = some s' ∧
+    s'.started = (run cfgOk (init 2) schB).started ++ [(0, ⟨0, 7⟩)] := by
+  obtain ⟨s', h⟩ := Option.isSome_iff_exists.1
+    (show (step cfgOk (run cfgOk (init 2) schB) (.worker 0 false)).isSome = true by decide)
+  refine ⟨s', h, ?_⟩
+  rcases ctx_owner (.worker 0 false) h with h1 | ⟨w, it, hc, hw, hst⟩
+  · have : ((step cfgOk (run cfgOk (init 2) schB) (.worker 0 false)).map
+        (fun t => decide (t.started = (run cfgOk (init 2) schB).started))) = some false := by decide
+    rw [h] at this; simp [h1] at this
+  · cases hc
+    have hw0 : (run cfgOk (init 2) schB).workers[0]? = some (.working ⟨0, 7⟩) := by decide
+    rw [hw0] at hw; cases hw; exact hst
+
 /-- **No lost wake-up** (holds with and without spurious wake-ups, for both variants of `dequeue`).
 * A worker that waits on `queue_cond` *unsignalled* has nothing to do: the queue is empty and `destroy` has not
   taken the lock yet.  (The status may already be non-zero — the worker is then woken by the next `submit` or
@@ -258,6 +316,8 @@ theorem no_lost_wakeup {cfg : Cfg} {n : Nat} {s : State} (hr : Reachable cfg n s
   · exact Or.inr (Or.inr h1)
   · exact Or.inr (Or.inl h1)
   · exact Or.inl h1
+
+example := (no_lost_wakeup (run_reachable cfgOk 2 schW)).2 (by decide)
 
 /-- **No dead-lock** (repaired `dequeue`, at least one worker, strict relation — a waiter runs only after a
 broadcast).  In every reachable state in which the main thread is inside an API call, some thread can take a
@@ -466,6 +526,17 @@ theorem failure_reported_submit {cfg : Cfg} {s s' : State} {d : Nat} (hm : s.mai
   · unfold submitBody; by_cases h0 : s.status = 0 <;> simp [h0]
   · intro h0; simp [submitBody, h0]
 
+/-- instance: at the lock of `submit 1` with status −5 — the call returns −5 and enqueues nothing -/
+example : (run cfgF (init 1) schFS).main = .submitLock 1 ∧ (run cfgF (init 1) schFS).status = -5 := by decide
+example : ∃ s', step cfgF (run cfgF (init 1) schFS) (.main (.cont false)) = some s' ∧
+    s'.rets = (run cfgF (init 1) schFS).rets ++ [.submit (-5)] ∧ s'.queue = (run cfgF (init 1) schFS).queue := by
+  obtain ⟨s', h⟩ := Option.isSome_iff_exists.1
+    (show (step cfgF (run cfgF (init 1) schFS) (.main (.cont false))).isSome = true by decide)
+  have h1 := failure_reported_submit (d := 1) (by decide) h
+  have hst : (run cfgF (init 1) schFS).status = -5 := by decide
+  rw [hst] at h1
+  exact ⟨s', h, h1.1, (h1.2.2 (by decide)).1⟩
+
 /-- **`get_status` reports it.** -/
 theorem failure_reported_get_status {cfg : Cfg} {s s' : State} (hm : s.main = .statusLock)
     (hs : step cfg s (.main (.cont false)) = some s') :
@@ -473,6 +544,16 @@ theorem failure_reported_get_status {cfg : Cfg} {s s' : State} (hm : s.main = .s
   simp only [step, stepMain, hm, Option.some.injEq] at hs
   subst hs
   exact ⟨rfl, rfl⟩
+
+/-- instance: `get_status` after the failure returns −5 -/
+example : ∃ s', step cfgF (run cfgF (init 1) schFG) (.main (.cont false)) = some s' ∧
+    s'.rets = (run cfgF (init 1) schFG).rets ++ [.status (-5)] := by
+  obtain ⟨s', h⟩ := Option.isSome_iff_exists.1
+    (show (step cfgF (run cfgF (init 1) schFG) (.main (.cont false))).isSome = true by decide)
+  have h1 := failure_reported_get_status (by decide) h
+  have hst : (run cfgF (init 1) schFG).status = -5 := by decide
+  rw [hst] at h1
+  exact ⟨s', h, h1.1⟩
 
 /-- **`dequeue` after a failure does not wait** (repaired code): holding the lock with a non-zero status it
 returns at once — the next item in submission order if that one is already done, otherwise NULL (after which
@@ -631,6 +712,9 @@ theorem refines_serial_prefix {cfg : Cfg} {n : Nat} {s : State} (hok : ∀ d, cf
   obtain ⟨cdone, h1, h2, _⟩ := invR_reachable hok hr
   exact ⟨cdone, h1, h2.symm⟩
 
+/-- instance: a `dequeue` call is pending (main waits on `done_cond`) -/
+example := refines_serial_prefix (cfg := cfgOk) (fun _ => rfl) (run_reachable cfgOk 2 schW)
+
 /-! ### beyond the base model: the per-worker user pointer, `set_worker_ptr`, `calloc` failure in `submit`
 
 `Model/C09PoolX.lean` adds `pool->workers[i].user`, `set_worker_ptr`, the pointer `worker_proc` hands to the
@@ -679,6 +763,23 @@ theorem ctx_exclusive_users {cfg : Cfg} {n : Nat} {xs : XState} (own : Nat → N
   have e2 := hX.ctxAt j q h2 (by rw [← hpq]; exact hp)
   rw [← hpq] at e2
   exact hij (e1.symm.trans e2)
+
+/-- instance with the usage discipline `hd` discharged from the literal log: pointers 11 and 33 belong to worker 0, 22 to
+worker 1; worker 0 is re-pointed to 33 while its callback runs on 11 -/
+example : (11 : Nat) ≠ 22 :=
+  ctx_exclusive_users (cfg := cfgOk) (n := 2)
+    (xs := xrun cfgOk (xinit 2) (xschP ++ [.base (.worker 0 false), .setPtr 0 33, .base (.worker 1 false),
+      .base (.main (.cont false))]))
+    (fun p => if p = 22 then 1 else 0) (xrun_reachable cfgOk 2 _)
+    (by
+      have hlog : (xrun cfgOk (xinit 2) (xschP ++ [.base (.worker 0 false), .setPtr 0 33, .base (.worker 1 false),
+          .base (.main (.cont false))])).log = [.setPtr 0 11, .setPtr 1 22, .enter 0 11 5, .setPtr 0 33, .enter 1 22 6] := by
+        decide
+      intro i p h hp
+      rw [hlog] at h
+      simp at h
+      rcases h with ⟨rfl, rfl⟩ | ⟨rfl, rfl⟩ | ⟨rfl, rfl⟩ <;> simp)
+    0 1 11 22 (by decide) (by decide) (by decide) (by decide)
 
 /-- a context is in use exactly while its worker is inside the callback, and it is the value the worker's
 `user` field had when the callback was entered: entering the callback (the step in which worker `i` takes an
@@ -733,6 +834,21 @@ theorem ctx_read_at_entry {cfg : Cfg} {n : Nat} {xs xs' : XState} (hr : XReachab
         simp only [Option.some.injEq] at hs; subst hs
         exact absurd hnew (hnw it)
 
+/-- instance: worker 0 (pointer 11 set before) takes item 5 from the queue and enters the callback with context 11 -/
+example : ∃ xs', xstep cfgOk (xrun cfgOk (xinit 2) xschP) (.base (.worker 0 false)) = some xs' ∧
+    ctxInUse xs' 0 = some 11 := by
+  obtain ⟨xs', h⟩ := Option.isSome_iff_exists.1
+    (show (xstep cfgOk (xrun cfgOk (xinit 2) xschP) (.base (.worker 0 false))).isSome = true by decide)
+  have hw : ((xstep cfgOk (xrun cfgOk (xinit 2) xschP) (.base (.worker 0 false))).map
+      (fun t => decide (t.base.workers[0]? = some (.working ⟨0, 5⟩)))) = some true := by decide
+  rw [h] at hw
+  simp only [Option.map_some, Option.some.injEq, decide_eq_true_eq] at hw
+  have hw0 : (xrun cfgOk (xinit 2) xschP).base.workers[0]? = some .start := by decide
+  have hu : (xrun cfgOk (xinit 2) xschP).users.getD 0 0 = 11 := by decide
+  have := ctx_read_at_entry (xrun_reachable cfgOk 2 xschP) 0 false ⟨0, 5⟩ h (by intro it'; rw [hw0]; simp) hw
+  rw [hu] at this
+  exact ⟨xs', h, this.1⟩
+
 /-- **`set_worker_ptr` returns at once and does not disturb a running callback**: at its lock the main thread is
 always enabled; the step stores the pointer and changes nothing else — in particular not the context any running
 callback is using. -/
@@ -779,6 +895,12 @@ theorem x_no_deadlock {cfg : Cfg} {n : Nat} {xs : XState} (hrep : cfg.repaired =
         exact ⟨.worker i spur, xs', hstrict, hc, by simp only [xstep]; exact hx⟩
     · simp at hs
 
+/-- instances: the main thread inside `set_worker_ptr`; and inside `dequeue` while both workers hold an item -/
+example := x_no_deadlock (cfg := cfgOk) rfl (by decide) (xrun_reachable cfgOk 2 [.setPtr 0 11]) (by decide)
+example := x_no_deadlock (cfg := cfgOk) rfl (by decide)
+  (xrun_reachable cfgOk 2 (xschP ++ [.base (.worker 0 false), .base (.worker 1 false), .base (.main (.call .dequeue)),
+    .base (.main (.cont false))])) (by decide)
+
 /-- … as a statement about the `dl=` flag the driver and the harness print -/
 theorem x_no_deadlock_flag {cfg : Cfg} {n : Nat} {xs : XState} (hrep : cfg.repaired = true) (hn : 0 < n)
     (hr : XReachable cfg n xs) : xisDeadlock xs = false := by
@@ -787,6 +909,8 @@ theorem x_no_deadlock_flag {cfg : Cfg} {n : Nat} {xs : XState} (hrep : cfg.repai
   | none =>
     have := no_deadlock_flag hrep hn (x_projects hr)
     simpa [xisDeadlock, xmainInCall, xmainContEnabled, hsp, isDeadlock] using this
+
+example := x_no_deadlock_flag (cfg := cfgOk) rfl (by decide) (xrun_reachable cfgOk 2 xschP)
 
 /-! ### the granularity of the base model is sound: lock/unlock granularity refines it -/
 
@@ -812,11 +936,30 @@ theorem frun_reachable (cfg : Cfg) (n : Nat) (cs : List Choice) : FReachable cfg
       exact ih fs' (.step c hfs hstep)
     · exact ih fs hfs
 
-/-- **Mutual exclusion** at fine granularity: while the main thread holds the mutex no worker does, and two workers
-never hold it together. -/
+/-- **Mutual exclusion** at fine granularity, for every pair of threads: while the main thread holds the mutex no
+worker does, and two workers never hold it together (two worker slots in phase `locked` are the same slot). -/
 theorem fine_mutex {cfg : Cfg} {n : Nat} {fs : FState} (hr : FReachable cfg n fs) :
-    (fs.fm.isLocked = true → ∀ (j : Nat) (w : FW), fs.fw[j]? = some w → w.isLocked = false) :=
-  mx_reachable hr
+    (fs.fm.isLocked = true → ∀ (j : Nat) (w : FW), fs.fw[j]? = some w → w.isLocked = false) ∧
+    (∀ (j k : Nat) (w w' : FW), fs.fw[j]? = some w → fs.fw[k]? = some w' → w.isLocked = true → w'.isLocked = true →
+      j = k) :=
+  ⟨mx_reachable hr, mxw_reachable hr⟩
+
+/-- instances: (1) the main thread holds the mutex inside `destroy` while worker 0 sleeps in `pthread_cond_wait`;
+(2) worker 1 holds the mutex, worker 0 and the main thread (inside `submit`) are queued behind it — the lock is not
+granted to either (their steps are disabled) -/
+example :
+    let fs := frun ⟨true, fun _ => 0⟩ (finit 1)
+      [.worker 0 false, .worker 0 false, .main (.call .destroy), .main (.cont false)]
+    fs.fm = .locked .destroy ∧ fs.fw = [.at (.waitQ false)] := by decide
+example := (fine_mutex (frun_reachable ⟨true, fun _ => 0⟩ 1
+    [.worker 0 false, .worker 0 false, .main (.call .destroy), .main (.cont false)])).1 (by decide) 0 _ rfl
+example :
+    let fs := frun ⟨true, fun _ => 0⟩ (finit 2) [.main (.call (.submit 3)), .worker 1 false, .worker 0 false, .main (.cont false)]
+    fs.fm = .at (.submitLock 3) ∧ fs.fw = [.at .start, .locked .start] ∧
+    fstep ⟨true, fun _ => 0⟩ fs (.worker 0 false) = none ∧ fstep ⟨true, fun _ => 0⟩ fs (.main (.cont false)) = none := by
+  decide
+example := (fine_mutex (frun_reachable ⟨true, fun _ => 0⟩ 2
+    [.main (.call (.submit 3)), .worker 1 false, .worker 0 false, .main (.cont false)])).2 1 1 _ _ rfl rfl rfl rfl
 
 /-- **Safety at fine granularity**, on the fine state's own history: FIFO, and no ticket's callback runs twice. -/
 theorem fine_safety {cfg : Cfg} {n : Nat} {fs : FState} (hr : FReachable cfg n fs) :
@@ -834,6 +977,10 @@ theorem fine_safety {cfg : Cfg} {n : Nat} {fs : FState} (hr : FReachable cfg n f
   rw [hsub] at h1
   rw [hst] at h2
   exact ⟨hret.trans h1, h2⟩
+
+example := fine_safety (frun_reachable cfgOk 1
+  [.worker 0 false, .worker 0 false, .main (.call .destroy), .main (.cont false), .main (.cont false),
+   .worker 0 false, .worker 0 false])
 
 /-- **No dead-lock at fine granularity** (repaired `dequeue`, at least one worker, no spurious wake-ups needed): whenever the
 main thread is inside an API call — at a blocking point, holding the mutex, or in a lock-free tail — some thread can take a
@@ -948,6 +1095,10 @@ theorem fine_no_deadlock {cfg : Cfg} {n : Nat} {fs : FState} (hrep : cfg.repaire
       obtain ⟨j, w, hj, hw⟩ := this
       obtain ⟨fs', h⟩ := fw_phase_steps cfg fs j w hj hw
       exact ⟨.worker j false, fs', rfl, by intro op; simp, by simp only [fstep]; exact h⟩
+
+/-- instance: the main thread holds the mutex inside `destroy` (worker 0 sleeps on `queue_cond`) -/
+example := fine_no_deadlock (cfg := cfgOk) rfl (by decide)
+  (frun_reachable cfgOk 1 [.worker 0 false, .worker 0 false, .main (.call .destroy), .main (.cont false)]) (by decide)
 
 
 /-! ### non-vacuity -/
